@@ -2,20 +2,15 @@ SPECIFICATION Spec
 CONSTANTS
     IdOrder <- MCIds4
     ValOrder <- MCVals
-    Payloads = {1, 2}
+    Payloads = {1}
     SegOrder <- MCSegs
     GlobTable <- MCGlob
     Grid <- MCGridSmall
+    TxGrid <- MCTxGridTiny
     JoinCollapse = TRUE
     NoLimitRaw = FALSE
     Faults = TRUE
+    MaxTxOps = 1
 INVARIANTS
-    TypeOK
-    GetIsLast
     Bijection
-    ListIsSlice
-PROPERTIES
-    FailedOpLeavesNoTrace
-    ReopenSame
-    CommitIsRef
 CHECK_DEADLOCK FALSE
